@@ -5,6 +5,10 @@
 EXTENDS MCGen
 OpsV == {"GoNew", "Sentinel", "New", "Wrap", "WithStack", "WithHint", "WithDomain", "Handled", "Mark",
          "GoWrap", "UWrap", "Join", "JoinPkg", "GoJoin", "GoWrap2", "Hop", "HopU"}
+\* restricted instance: nested multi-cause nodes with several layers of the same kind
+\* in different branches (As must find the first one in depth-first order)
+OpsNest == {"GoNew", "Errno", "WithHint", "Wrap", "Join", "JoinPkg", "GoJoin", "GoWrap2"}
+ShapesOneW == {<<"w1">>}
 ShapesV == {<<"w1">>, <<"w2", "NL", "w1">>}
 Shapes2V == {<<"w2">>}
 =============================================================================
